@@ -138,3 +138,20 @@ Proof.
           2 * (q11 * q13 + q21 * q23 + q31 * q33) * (x * z) + 2 * (q12 * q13 + q22 * q23 + q32 * q33) * (y * z)) by ring.
   rewrite H11, H22, H33, H12, H13, H23. ring.
 Qed.
+
+(* the whole partition-of-unity statement for real geometries *)
+Lemma becke_partition_euclid_lemma k rad atoms p : NoDup atoms -> atoms <> [] ->
+  (forall A, (A < length atoms)%nat -> 0 <= becke_geom k rad atoms p A <= 1) /\
+  fold_right Rplus 0 (map (becke_geom k rad atoms p) (seq 0 (length atoms))) = 1 /\
+  (forall A, (A < length atoms)%nat ->
+     becke_geom k rad atoms (nth A atoms origin) A = 1 /\
+     forall B, (B < length atoms)%nat -> B <> A -> becke_geom k rad atoms (nth A atoms origin) B = 0).
+Proof.
+  intros Hnd Hne. assert (HM : (0 < length atoms)%nat) by (destruct atoms; [congruence | cbn; lia]).
+  pose proof (euclid_wf_lemma atoms p Hnd) as W. repeat split.
+  - apply weight_range_lemma; assumption.
+  - apply weight_range_lemma; assumption.
+  - apply sum_to_one_lemma; assumption.
+  - apply (nucleus_values_lemma k (length atoms) rad (geom_R atoms) _ A H (euclid_nucleus_lemma atoms A Hnd H)).
+  - apply (nucleus_values_lemma k (length atoms) rad (geom_R atoms) _ A H (euclid_nucleus_lemma atoms A Hnd H)).
+Qed.
